@@ -325,3 +325,7 @@ Proof.
   destruct e1 as [[i1 p1] s1]. symmetry in HB. destruct (run_trace2_head _ _ _ _ _ _ HB) as (-> & _).
   cbn [snd]. unfold step in Hs. rewrite Hp in Hs. inversion Hs. cbn [sq set_thr]. apply in_or_app. right. left. reflexivity.
 Qed.
+
+Corollary fifo_prefix b ths sched : forallb env_pc ths = true ->
+  exists rest, push_order b (run_trace sched (init ths)) = log_of b (run sched (init ths)) ++ rest.
+Proof. intros He. eexists. symmetry. apply (fifo b ths sched He). Qed.
